@@ -33,6 +33,9 @@ func universeConfigs(r *vk.Run) []Config {
 		}
 		c.ExecDelayUs = []int{0, 400, 2500}[rng.Intn(3)]
 		c.InjectGaps = rng.Intn(2) == 0
+		if i%4 == 3 {
+			c.MempoolRun = 2 + (i/4)%2
+		}
 		out = append(out, c)
 	}
 	return out
@@ -102,7 +105,7 @@ func Run(r *vk.Run) {
 		}
 		return
 	}
-	r.Rule = "(a) concurrent worlds: a real aggregator Manager (production, reaper, header and data submission, DA inclusion loops; real single sequencer; mempool injector) and a real full node Manager (DA scan, both P2P store loops, sync, DA inclusion) run as goroutines against one DA double with random latency and faults, datastore yields at every call, block time 2-5 ms, DA block time 3-10 ms, lazy/normal mode, with/without pending limit, until 60 | 300 blocks; afterwards the chain, convergence, submission and inclusion oracles run on the final state (prefix forms); (b) stop scenarios by logical position (start-up delay with genesis in the future; inside a blocked DA submit; inside execution; header/data event channel full via DA and via P2P with a stalled consumer; mid-scan; idle): cancel, release every double, every loop must return within 10 s; (c) the real FullNode.Run (libp2p on loopback) aggregator + full node, stopped at seeded instants. Everything runs in child processes of the -race build: a race report or crash kills the child and is reported with the case it was running. non-trivial = a world in which at least three loops made progress, or a stop scenario whose position was reached; distinct by interleaving signature (number of distinct windows of 6 consecutive loop-labelled operations) resp. scenario"
+	r.Rule = "(a) concurrent worlds: a real aggregator Manager (production, reaper, header and data submission, DA inclusion loops; real single sequencer; mempool injector) and a real full node Manager (DA scan, both P2P store loops, sync, DA inclusion) run as goroutines against one DA double with random latency and faults, datastore yields at every call, block time 2-5 ms, DA block time 3-10 ms, lazy/normal mode, with/without pending limit, until 60 | 300 blocks; in every fourth world the DA layer's mempool is crowded: each stream's submissions are turned away 2-3 times in a row (timed out / already in mempool; gas price 1, multiplier 1.5) before one gets through, and the acknowledgements of header and data submissions that got through together arrive together; the sequencer proxy passes the manager's RecordMetrics calls on to the real sequencer; afterwards the chain, convergence, submission and inclusion oracles run on the final state (prefix forms); (b) stop scenarios by logical position (start-up delay with genesis in the future; inside a blocked DA submit; inside execution; header/data event channel full via DA and via P2P with a stalled consumer; mid-scan; idle): cancel, release every double, every loop must return within 10 s; (c) the real FullNode.Run (libp2p on loopback) aggregator + full node, stopped at seeded instants. Everything runs in child processes of the -race build: a race report or crash kills the child and is reported with the case it was running. non-trivial = a world in which at least three loops made progress, or a stop scenario whose position was reached; distinct by interleaving signature (number of distinct windows of 6 consecutive loop-labelled operations) resp. scenario"
 	r.Assume(raceEnabledNote())
 	r.Assume("a goroutine still inside the repository's code 10 s after cancel, with every double released and all timers of the configuration <= 20 ms, is hung, not slow")
 	logDir := filepath.Join(vk.Root(), "out", "tmp", fmt.Sprintf("C13-race-%d", os.Getpid()))
@@ -142,6 +145,7 @@ func Run(r *vk.Run) {
 	r.Set("race_reports", races)
 	r.Require("stop-promptly", 4)
 	r.Require("stop-scenario", 8)
+	r.Require("submission-through-after-mempool-rejections", 10)
 	if !raceEnabled {
 		r.Inconclusive("binary built without -race: the race clause was not exercised")
 	}
